@@ -1118,5 +1118,6 @@ Proof.
     by apply view_reset.
   split; [exact V|]. split.
   - exists a. split; [|eapply unlink_imol; eauto]. simpl. apply nth_error_upd_same. eapply nth_error_some_lt; eauto.
-  - unfold by_mass. rewrite V. simpl. rewrite lookup_unbind. reflexivity.
+  - unfold by_mass. rewrite V. simpl. rewrite lookup_unbind. simpl. unfold new_view, data_rows. simpl.
+    destruct (nth_error h (imol s)) as [[]|]; reflexivity.
 Qed.
